@@ -418,6 +418,10 @@ def isinstance_static(self, v, cls_node, st):
     m = getattr(self.c, "isinstance_map", None) or {}
     if isinstance(cls_node, ast.Tuple):
         return z3.Or(*[self.isinstance_static(v, c, st) for c in cls_node.elts])
+    if isinstance(v, Val) and isinstance(v.t, Opt) and txt not in ("NoneType",):
+        # Optional value: None is an instance of no class; otherwise the wrapped value decides
+        inner = Val(v.t.elt, v.t.val(v.z))
+        return z3.And(z3.Not(v.t.is_none(v.z)), self.isinstance_static(inner, cls_node, st))
     if txt in m:
         want = m[txt]
         if isinstance(v, Val):
@@ -1134,6 +1138,16 @@ def call_method(self, recv, name, args, kwargs, st, node):
                 return
             if name == "__contains__":
                 yield bool_val(self.contains(st, recv, a[0])), st
+                return
+            if name == "index" and len(a) == 1:
+                # tuple.index(x): the FIRST position holding x; ValueError when x does not occur
+                x = self.coerce(a[0], t.elt, st)
+                self.fork_raise(st, z3.Not(self.contains(st, recv, x)), "ValueError")
+                r = fresh("idx", z3.IntSort())
+                j = fresh("j", z3.IntSort())
+                st.assume(z3.And(0 <= r, r < self.seq_len(recv), self.seq_nth(recv, r).z == x.z))
+                st.assume(z3.ForAll([j], z3.Implies(z3.And(0 <= j, j < r), self.seq_nth(recv, j).z != x.z)))
+                yield int_val(r), st
                 return
         if isinstance(t, List):
             if name == "append":
